@@ -12,7 +12,7 @@ A state is its event history, replayed on a fresh SystemGro over a fresh in-memo
 import itertools
 
 from mcx import enum as en
-from mcx.build import MemFile
+from mcx.build import MemFile, Scratch
 from mcx.core import Check
 
 KINDS = {'W1': ('W', ['OW']), 'W3': ('W', ['OW', 'HW1', 'HW2']),
@@ -67,11 +67,16 @@ def build_text(fd, seed):
         for an in anames:
             at = (start + aid) % 100000 if num == 'wrap' else (aid + 1) % 100000
             p = (0.011 * (aid % 800 + 1) + 0.1 * seed, 1.0 + 0.007 * (aid % 1000), 2.0 + 0.013 * ((aid * aid + seed) % 17))
+            if aid % 3 == 0:
+                # a value that FILLS its column (-1xx.xxx in %8.3f): no blank separates it from the previous number
+                p = (p[0], -100.0 - p[1], p[2] if aid % 2 else -100.0 - p[2])
             s = f'{rid:5d}{rn:5s}{an:>5s}{at:5d}' + ''.join(f'{x:{w}.{d}f}' for x in p)
             if vel:
                 v = (0.01 * (aid % 90 + 1), -0.02 * (aid % 40 + 1), 0.003 * ((aid + seed) % 7))
                 if aid % 5 == 1:
                     v = (0.0, 0.0, 0.0)           # an atom at rest: a recorded velocity, not a missing one
+                elif aid % 4 == 0:
+                    v = (v[0], -10.0 + v[1], v[2])     # column-filling velocity (-1x.xxxx in %8.4f)
                 s += ''.join(f'{x:{w}.{d + 1}f}' for x in v)
             lines.append(s)
             aid += 1
@@ -412,11 +417,46 @@ class C12(Check):
                         break
         except Exception as exc:
             sig, det = 'tiling/exception', f'{type(exc).__name__}: {exc}'
+        if sig is None and len(ref) <= 12:
+            sig, det = self._real_file(text, title, natoms, recs, box, ref)
         R.case(desc, nontrivial=len(ref) >= 2, outcome='tiling', cls='tiling/' + fcls)
         R.traces += 1
         if sig:
             R.violation(sig, desc, det)
         return sig is None
+
+    def _real_file(self, text, title, natoms, recs, box, ref):
+        """The same records in a REAL file whose title holds multi-byte characters (UTF-8: bytes != characters in the
+        header), opened by the caller in text mode: tiling, counts, title, box and every index."""
+        import numpy as np
+        from gaddlemaps.components import SystemGro
+        title2 = 'Caja de simulaci\u00f3n de Jos\u00e9, 25 \u00b0C, 12 \u00c5 \u2013 ' + title
+        try:
+            with Scratch() as d:
+                path = d + '/c12.gro'
+                with open(path, 'w', encoding='utf-8', newline='\n') as fh:
+                    fh.write(title2 + text[len(title):])
+                fh = open(path, encoding='utf-8')
+                try:
+                    s = SystemGro(fh)
+                    got = [norm_res(r) for r in s]
+                    if [a for r in got for a in r] != recs or [len(r) for r in got] != [len(r) for r in ref]:
+                        return 'tiling/real-file/records-differ-from-file', 'title with multi-byte characters'
+                    if len(s) != len(ref) or s.n_atoms != natoms:
+                        return 'tiling/real-file/counts-differ-from-file', (len(s), s.n_atoms)
+                    if s.comment_line.rstrip('\n') != title2:
+                        return 'tiling/real-file/title-differs-from-file', repr(s.comment_line)
+                    if np.abs(np.asarray(s.box_matrix, dtype=float) - np.array(box)).max() > 1e-12:
+                        return 'tiling/real-file/box-differs-from-file', np.asarray(s.box_matrix).tolist()
+                    n = len(ref)
+                    for k in list(range(n - 1, -n - 1, -1)):
+                        if norm_res(s[k]) != ref[k]:
+                            return 'tiling/real-file/index-differs-from-iteration', f'[{k}] of {n}'
+                finally:
+                    fh.close()
+        except Exception as exc:
+            return 'tiling/real-file/exception', f'{type(exc).__name__}: {exc}'
+        return None, None
 
     # ------------------------------------------------------------------
     def _run(self, text, ref, hist, check_all):
